@@ -116,20 +116,54 @@ class Ctx:
         lc, var = self.g.result_wire(value, name)
         return self.mk_lincomb(value, lc)
 
+    def _extra_fields(self, kind):
+        """Fields the real constructor sets besides the ones the contracts talk about (value, lc): taken from a
+        template object built ONCE by the real constructor on concrete arguments, so that a field added to
+        __init__ (a name, a cache slot initialised to None) is present on every operand the contracts build."""
+        cache = self.__dict__.setdefault("_templates", {})
+        if kind in cache:
+            return cache[kind]
+        extra = {}
+        w = self.w
+        saved = w.use_contracts
+        w.use_contracts = False
+        n_trace = len(self.g.trace)
+        try:
+            base = self.LinComb(0, self.g.zero()) if hasattr(self.g, "zero") else None
+            if kind == "LinComb":
+                t = base
+            elif kind == "LinCombBool":
+                t = self.LinCombBool(base, False)
+            else:
+                t = self.LinCombFxp(base, False)
+            if len(self.g.trace) == n_trace:
+                extra = {k: v for k, v in vars(t).items() if k not in ("value", "lc")
+                         and isinstance(v, (int, str, bool, float, type(None), tuple, frozenset))}
+        except BaseException:  # noqa  the constructor refused the template arguments: no extra fields known
+            del self.g.trace[n_trace:]
+            extra = {}
+        finally:
+            w.use_contracts = saved
+        cache[kind] = extra
+        return extra
+
     def mk_lincomb(self, value, lc):
-        """Allocate a LinComb without running any code of /repo."""
+        """Allocate a LinComb without running any code of /repo on symbolic values."""
         o = object.__new__(self.LinComb)
+        o.__dict__.update(self._extra_fields("LinComb"))
         o.value = value
         o.lc = lc
         return o
 
     def mk_bool(self, lincomb):
         o = object.__new__(self.LinCombBool)
+        o.__dict__.update(self._extra_fields("LinCombBool"))
         o.lc = lincomb
         return o
 
     def mk_fxp(self, lincomb):
         o = object.__new__(self.LinCombFxp)
+        o.__dict__.update(self._extra_fields("LinCombFxp"))
         o.lc = lincomb
         return o
 
